@@ -86,6 +86,7 @@ def cases(tier, seed=0):
   cs += _ea.long_label_cases('DL_POLY_EAM_fs', tier)
   cs += _ea.pair_iterable_cases('DL_POLY_EAM', tier)
   cs += _ea.pair_iterable_cases('DL_POLY_EAM_fs', tier)
+  cs += _ea.late_onset_cases('DL_POLY_EAM', tier)
   return cs
 
 
